@@ -197,6 +197,13 @@ REBASED = ("patch re-created by hand on /repo HEAD (the same change) after later
 
 # name -> one sentence on how the evaluation of this change went over time (only where there is something to say)
 HISTORY = {
+    "C18_m5": MISSED + "computed constant selectors (+n, ~n, not n, -(-n)) in C18's selector corpus",
+    "C05_m5": MISSED + "call sites whose names are the helper's parameter names permuted or wrapped in expressions, with an inner call left un-inlined",
+    "C06_m5": "the change is in the capture code: missed by C06 (which starts from ASTs) and at first by C01, caught by C04; C01's programs now use module globals only inside generator expressions",
+    "C07_m5": MISSED + "user Iterable subclasses that re-declare collection-method names with required parameters",
+    "C08_m5": MISSED + "dataclass fields annotated with forward references / string annotations",
+    "C09_m5": MISSED + "callback-carrying methods without a return annotation or annotated Any",
+    "C11_m5": "detected through the generated tables only (the restructured cleaner is not recognised: proof obligation TABLES-UNCHANGED); the executors of the stream harness now edit the tree they receive in place, as backends do",
     "C14_m4": MISSED + "dictionary keys named like methods of dict in the chain generator (and a record semantics for dictionary literals in the reference evaluator, which previously skipped attribute access on them)",
     "C17_m4": MISSED + "lambdas with parameter defaults that contain operator calls in the C17 generators",
     "C12_m4": MISSED + "recording which dataset OBJECT ran the query (a shallow copy of the dataset is not the dataset at the root)",
